@@ -116,7 +116,7 @@ def main():
         print('UNDECIDED property=%s reason=%s' % (prop, reason))
         if detail:
             print(detail[:6000])
-        if reason.split(':')[0] in ('lost-anchor', 'tool-limit', 'rlimit', 'tool-failure') and not os.environ.get('VERIF_NO_BOUNDED'):
+        if reason.split(':')[0] in ('lost-anchor', 'tool-limit', 'rlimit', 'tool-failure', 'unstable-proof') and not os.environ.get('VERIF_NO_BOUNDED'):
             # the code left the verifier's dialect (or budget): the deductive route gives no verdict on this tree.
             # Fall back to the bounded stand-in on the real compiled code - labelled bounded, never counted as proved.
             b = run_bounded(prop, tier)
@@ -299,6 +299,49 @@ def main():
         else:
             new_viol.append(rec)
 
+    # 6b. stability guard.  The obligations of a unit are a function of (the unit's extracted text, the context: prelude + specs + extracted types + assumed contracts
+    # + the headers of the other units).  If both are byte-identical to the baseline recorded when this check last passed on the pinned tree (baseline/<prop>.json,
+    # committed, never written by a normal run), a failed obligation of that unit cannot be a change of the code: the same text was proved.  It is solver instability
+    # (another function of the file changed, which perturbs Z3's search).  Such failures are retried with other solver seeds and, if they persist, reported as
+    # UNDECIDED (unstable-proof) - never as a violation.
+    import hashlib
+    ctx_sha = hashlib.sha256(''.join(t for k, n, t, m in asm.parts if k != 'unit').encode()).hexdigest()[:16]
+    hdr_sha = hashlib.sha256(''.join(u.header for u in asm.units).encode()).hexdigest()[:16]
+    unit_sha = {}
+    for k, n, t, m in asm.parts:
+        if k == 'unit':
+            unit_sha[n] = hashlib.sha256(t.encode()).hexdigest()[:16]
+    base_path = os.path.join(VERIF, 'baseline', prop + '.json')
+    base = None
+    try:
+        base = json.load(open(base_path))
+    except Exception:
+        base = None
+    unstable = []
+    if base and new_viol and base.get('context') == ctx_sha and base.get('headers') == hdr_sha:
+        same = [r for r in new_viol if base.get('units', {}).get(r['unit']) == unit_sha.get(r['unit'])]
+        if same:
+            still = set(r['unit'] for r in same)
+            tried = []
+            for sd in (7, 1234, 99):
+                r2 = core.run_verus(path, rlimit=rlimit, extra=list(meta.get('verus_args', ())) + ['--smt-option', 'smt.random_seed=%d' % sd])
+                tried.append(sd)
+                failing = set()
+                for e2 in r2['errors']:
+                    if core.classify(e2['msg']) in ('obligation', 'rlimit'):
+                        for ln in [e2['line']] + list(e2['spans']):
+                            k2, n2, m2, f2 = asm.locate(ln)
+                            if k2 == 'unit':
+                                failing.add(n2)
+                still &= failing
+                if not still:
+                    break
+            unstable = [dict(unit=r['unit'], clause=r['clause'][:200], retried_seeds=tried, persisted=(r['unit'] in still)) for r in same]
+            new_viol = [r for r in new_viol if r not in same]
+            if still and not new_viol:
+                print('unstable proof (unit text and context identical to the proved baseline): %s' % ', '.join(sorted(still)))
+                return undecided('unstable-proof:%s' % sorted(still)[0], '\n'.join('%s :: %s' % (u['unit'], u['clause']) for u in unstable))
+
     trusted = meta.get('trusted_base', [])
     assumptions = meta.get('assumptions', [])
     samples = []
@@ -312,7 +355,7 @@ def main():
         pass
     slow = sorted(fb, key=lambda x: -x.get('time', 0))[:5]
     ev['coverage'] = dict(
-        obligations=obligations, discharged=discharged - 0,
+        obligations=obligations, discharged=discharged + len(set(u['unit'] for u in unstable if not u['persisted'])),
         obligations_explained='Verus verification items (functions whose full set of proof obligations - postconditions, loop invariants, callee preconditions incl. unwrap/index/overflow, termination - is sent to Z3); vacuity guards excluded',
         checker_cmd=res['cmd'].replace(VERIF, '/verif'),
         backend='verus 0.2026.09.13 / Z3',
@@ -327,6 +370,7 @@ def main():
         solver_time_ms=smt_ms, slowest=[dict(function=s['function'], ms=s['time'], rlimit=s.get('rlimit')) for s in slow],
         samples=samples,
         known_findings_hit=[dict(unit=k['unit'], what=k['what']) for k, r in known_hit],
+        unstable_proofs=unstable,
         bounded_checks=meta.get('bounded_checks', []),
         not_covered=meta.get('not_covered', []),
         repo=core.REPO,
@@ -363,6 +407,11 @@ def main():
                 ev['violations'] = 1
     ev['wall_s'] = round(time.time() - t0, 2)
     write_evidence(prop, ev)
+    if os.environ.get('VERIF_WRITE_BASELINE') and not new_viol and not unstable:
+        # tools/final.sh on the clean pinned tree: record what was proved (text hashes), for the stability guard above
+        os.makedirs(os.path.join(VERIF, 'baseline'), exist_ok=True)
+        with open(base_path, 'w') as f:
+            json.dump(dict(property=prop, context=ctx_sha, headers=hdr_sha, units=unit_sha), f, indent=1, sort_keys=True)
 
     for k, r in known_hit:
         print('KNOWN-FINDING: property=%s %s (unit %s)' % (prop, k['what'], k['unit']))
